@@ -110,6 +110,12 @@ func runAppTest(c *child.Ctx, app string, cases []appCase) (map[int]appObs, stri
 		go func() { waited <- cmd.Wait() }()
 		lastChange := time.Now()
 		var lastSize, lastMark int64 = -1, -1
+		patience := 75 * time.Second
+		for _, k := range cases {
+			if d := time.Duration(k.WriterUs) * time.Microsecond; k.WriterMode == "stallonce" && 75*time.Second+d > patience {
+				patience = 75*time.Second + d // a case that is held up on purpose
+			}
+		}
 	wait:
 		for {
 			select {
@@ -128,7 +134,7 @@ func runAppTest(c *child.Ctx, app string, cases []appCase) (map[int]appObs, stri
 			if sz != lastSize || mk != lastMark {
 				lastSize, lastMark, lastChange = sz, mk, time.Now()
 			}
-			if time.Since(lastChange) > 75*time.Second {
+			if time.Since(lastChange) > patience {
 				cmd.Process.Signal(syscall.SIGQUIT)
 				select {
 				case err = <-waited:
@@ -961,6 +967,26 @@ func monC10(c *child.Ctx, replay json.RawMessage) {
 			k.WriterMode, k.WriterUs = "perbyte", r.Range(30, 80)
 			k.Display = false
 			c.Count("live_sessions", 1)
+		}
+		if i == 9 && c.Batch < len(onceStalls(c)) {
+			// one write is held up for seconds while further frames are waiting: nothing
+			// may be given up on
+			var in2, fr2 []byte
+			for j := r.Range(8, 20); j > 0; j-- {
+				var f gen.Seg
+				for {
+					f = gen.RandFrame(r)
+					if len(f.Bytes) <= 60 {
+						break
+					}
+				}
+				in2 = append(in2, f.Bytes...)
+				fr2 = append(fr2, f.Bytes...)
+			}
+			k.Input, k.Expect, k.HasExpect = hexs(in2), hexs(fr2), true
+			k.Chunk, k.ReaderUs, k.EOFWithData = 0, 0, false
+			k.WriterMode, k.WriterUs = "stallonce", int(onceStalls(c)[c.Batch].Microseconds())
+			c.Count("sessions_with_one_write_held_up", 1)
 		}
 		cases = append(cases, k)
 	}
